@@ -244,9 +244,11 @@ func (sm *Subscriptions) ProcessWhenTime(before Clock) []chan struct{} {
 	// collect all the ticked states
 	// TODO optimize?
 	allTicked := S{}
-	for state, t := range before {
+	// walk the current clock: a state added by SetSchema has no entry in
+	// [before] until its first tick (a missing entry reads as 0)
+	for state, now := range sm.clock {
 		// if changed, collect to check
-		if sm.clock[state] != t {
+		if before[state] != now {
 			allTicked = append(allTicked, state)
 		}
 	}
